@@ -2,6 +2,9 @@
 //! tree) on them, and prints one line per case:  kind \t input \t observed  (wire format).
 //! The verdict is computed by the extracted Coq model (ocaml/driver.ml).
 mod cases;
+mod gen;
+mod indep;
+mod refissuer;
 mod rng;
 mod wire;
 
